@@ -1286,6 +1286,23 @@ impl<'s> Semantics<'s> {
             block.index()
         };
 
+        // When the condition is false nothing is moved, but in 64-bit mode a
+        // 32-bit destination register is still zero-extended into the full
+        // register.
+        let false_index = {
+            let block = control_flow_graph.new_block()?;
+
+            if matches!(*self.mode(), Mode::Amd64)
+                && detail.operands[0].type_ == x86_op_type::X86_OP_REG
+                && detail.operands[0].size == 4
+            {
+                let dst = self.operand_load(block, &detail.operands[0])?;
+                self.operand_store(block, &detail.operands[0], dst)?;
+            }
+
+            block.index()
+        };
+
         let block_index = {
             let block = control_flow_graph.new_block()?;
 
@@ -1301,10 +1318,11 @@ impl<'s> Semantics<'s> {
         control_flow_graph.conditional_edge(head_index, block_index, condition.clone())?;
         control_flow_graph.conditional_edge(
             head_index,
-            tail_index,
+            false_index,
             Expr::cmpeq(condition, expr_const(0, 1))?,
         )?;
         control_flow_graph.unconditional_edge(block_index, tail_index)?;
+        control_flow_graph.unconditional_edge(false_index, tail_index)?;
 
         control_flow_graph.set_entry(head_index)?;
         control_flow_graph.set_exit(tail_index)?;
